@@ -11,6 +11,7 @@ import InTotoModel.Generated.StrRequests
 import InTotoModel.Model.Attest
 import InTotoModel.Model.Wire
 import InTotoModel.Model.KeyId
+import InTotoModel.Driver.RecordProto
 /-
   Executable model driver: one operation per input line, one canonical answer per line.
   Unknown or malformed operations answer `bad-op` (never a default).
@@ -100,6 +101,14 @@ def step (line : String) : String :=
       if RulesSpec.Normalized item links then toString (RulesSpec.verdict item links) else "na"
     | none => "bad-op"
   | "verify" :: toks => runVerify toks
+  | "record" :: toks => runRecord toks
+  | ["lstrip", p, n] =>
+    -- lstrip <hexpath> <~ | comma separated hex strips>
+    let strips? : Option (Option (List Str)) :=
+      if n == "~" then some none else if n == "=" then some (some []) else ((n.splitOn ",").mapM strOfHex).map some
+    match strOfHex p, strips? with
+    | some p, some ss => hexOfStr (Record.applyLeftStrip p ss)
+    | _, _ => "bad-op"
   | ["keyid", t, scheme, algs, mat] =>
     let ty := if t == "ed25519" then some KeyId.KeyType.ed25519 else if t == "rsa" then some .rsa
       else if t == "ecdsa" then some .ecdsa else none
